@@ -13,7 +13,7 @@ RULE = ('generated float models x accepted recipes made only of weight-only / fl
         'tensors the quantized run actually preserved, exact for float operators, analytic 8-bit activation-quantisation bound for '
         'dynamic-range operators.  A program = one (model, recipe); distinct by (graph structure, recipe); non-trivial iff >=1 constant was '
         'rewritten')
-ASSUMPTIONS = ['float agreement: 1e-5*max(1, |ref|max)', 'dynamic-range bound per output channel o: 0.5*(max|x|/127)*sum|w_deq[o]| + 1e-5*max(1,|ref|max) '
+ASSUMPTIONS = ['float agreement: 1e-5*max(1, |ref|max), scaled by K/16 for operators accumulating dot products of K > 16 terms (float32 summation order differs between interpreters)', 'dynamic-range bound per output channel o: 0.5*(max|x|/127)*sum|w_deq[o]| + 1e-5*max(1,|ref|max) '
                '(max|x| over the whole input tensor bounds every per-batch/per-row scale of the hybrid kernels)',
                'recipes with static-range rules are C07\'s']
 TT = models.TT
@@ -23,6 +23,25 @@ POOL = recipes.DRQ + recipes.WO + ['fp16', 'noq', 'wo4a_cw']
 
 def plan(tier):
   return {'n_cases': 500 if tier == 'quick' else 40000, 'shards': 16}
+
+
+def reduction_length(ms, sg, op):
+  """Longest dot product the operator's float kernel accumulates (elements of its largest constant per output row): float32
+  rounding of a sum grows with its length, and two interpreters (whole model vs. single-operator replay) need not add in the same order."""
+  k = 1
+  for t0 in op.inputs:
+    if int(t0) < 0:
+      continue
+    t = sg.tensors[int(t0)]
+    d = ms.buffers[t.buffer].data
+    if d is not None and len(d) > 0 and t.shape is not None and len(t.shape) >= 2:
+      n = int(np.prod(t.shape))
+      k = max(k, n // max(1, int(t.shape[0])), n // max(1, int(t.shape[-1])))
+  return k
+
+
+def float_tol(k):
+  return 1e-5 * max(1.0, k / 16.0)
 
 
 def run_all(content, key, x):
@@ -83,6 +102,9 @@ def tied_case(ctx, case, rng):
     picks = [drq_name] * len(consumers)
     for i_ in rng.choice(len(consumers), size=int(rng.integers(2, 4)), replace=False):
       picks[int(i_)] = wo_name
+  elif len(picks) >= 2 and rng.random() < 0.3:
+    # a dynamic-range reader first, an ASYMMETRIC weight-only reader second (different stored bytes for one constant)
+    picks[0], picks[1] = str(rng.choice(['drq8_cw', 'drq8_tw'])), str(rng.choice(['wo8a_cw', 'wo4a_tw']))
   rules = [(re.escape(out), sel, str(c)) for (sel, out), c in zip(consumers, picks) if c is not None]
   if not rules:
     return {'outcome': 'skipped', 'reason': 'no_rule'}
@@ -180,7 +202,8 @@ def validate(ctx, spec, src, run, acc, datasets, extra=None):
             A = max(1.0, float(np.max(np.abs(refv)))) if refv.size else 1.0
             err = float(np.max(np.abs(refv - got))) / A if refv.size else 0.0
             ctx.observe_max('whole_model_rel_err', err)
-            if not (err <= 1e-5):
+            kmax = max([reduction_length(ms, a, o_) for o_ in a.operators] or [1])
+            if not (err <= float_tol(kmax)):
               ctx.violation('output_differs_from_reference_program', {'scope': 'whole_model'}, dict(base, output=k, rel_err=err))
         # ---- (b) per-operator replay
         for k, oa in enumerate(a.operators):
@@ -241,7 +264,7 @@ def validate(ctx, spec, src, run, acc, datasets, extra=None):
               ctx.count('ops_replayed:' + mode)
               err = float(diff.max()) / A
               ctx.observe_max('float_op_rel_err', err)
-              if not (err <= 1e-5):
+              if not (err <= float_tol(reduction_length(ms, a, oa))):
                 ctx.violation('float_compute_operator_differs_from_replay', f, dict(base, op_index=k, rel_err=err))
   ctx.risky('interp.c06', go, common.risky_info(run, spec, datasets, {'rules': acc}))
   return {}
